@@ -32,12 +32,36 @@ func (ft *FT) methodCall(c *ast.CallExpr, f *ast.SelectorExpr) []Val {
 			ft.write(target(), "")
 			return ft.unknownCall(args)
 		}
+		if libIfaces[pk+"."+n] && !v.Trusted {
+			// the dynamic type may be declared in the module: dynamic dispatch (trust.go)
+			ft.write(target(), "")
+			return ft.unknownCall(args)
+		}
+		if pk+"."+n == "sync.Pool" {
+			ok := ft.poolFresh(f.X)
+			if f.Sel.Name == "Put" { // only objects local to this function may be Put (pool.go)
+				for _, a := range args {
+					ok = ok && !lostRef(a) && len(ft.nonLocal(a.Pts)) == 0
+				}
+			}
+			if !ok {
+				ft.write(target(), "")
+				return ft.unknownCall(args)
+			}
+		}
 		// x.f.Set(..): remember which field of x holds the mutated object
 		fld := ""
 		if sel, ok := strip(f.X).(*ast.SelectorExpr); ok {
 			fld = sel.Sel.Name
 		}
-		return ft.libCall(c, sig, fld, libT(pk, n, true), target(), args)
+		tgt := target()
+		if !xt.isPtr() && xt.isObjectValue() && (sig.Eff == "W" || sig.Eff == "W+01") {
+			// v := *a copies only the header of a library object: v shares a's digit
+			// array, so a write to v may write whatever v was copied from
+			tgt = tgt.copy()
+			tgt.addAll(ft.load(tgt, "*"))
+		}
+		return ft.libCall(c, sig, fld, libT(pk, n, true), tgt, args)
 	}
 	// a repo type, possibly defined over another named type: methods are
 	// looked up on the named type itself only (Go does not inherit them).
@@ -110,6 +134,17 @@ func (ft *FT) repoCall(c *ast.CallExpr, pk, fname string, recv *Val, args []Val)
 		}
 		return out
 	}
+	// FAIL CLOSED: fewer arguments than parameters (only possible for f(g()) with a
+	// multi-valued g that could not be spread): the missing ones are unknown.
+	need := callee.NParams
+	if callee.Variadic {
+		need--
+	}
+	for j := len(all); j < need; j++ {
+		if callee.ParamRef[j] {
+			lost[j] = true
+		}
+	}
 	k := ft.site(c)
 	ft.isCall[k] = true
 	rsub := subst(callee.Sum.Ret)
@@ -147,5 +182,6 @@ func (ft *FT) repoCall(c *ast.CallExpr, pk, fname string, recv *Val, args []Val)
 			out = append(out, scalar(rt))
 		}
 	}
+	ft.nres = len(callee.ResT)
 	return out
 }
